@@ -62,6 +62,14 @@ crypt_yescrypt_rn (const char *phrase, size_t phr_size,
 
 #endif /* !INCLUDE_yescrypt */
 
+  /* SETTING may be a complete hash.  Only the part in front of the
+     43 characters of hash and the '$' introducing them reappears in
+     the output, so only that part counts here.  */
+  const char *hash = strrchr (setting, '$');
+  if (hash && hash > setting + 2 &&
+      set_size - (size_t) (hash - setting) == 1 + 43)
+    set_size = (size_t) (hash - setting);
+
   if (o_size < set_size + 1 + 43 + 1 ||
       CRYPT_OUTPUT_SIZE < set_size + 1 + 43 + 1 ||
       s_size < sizeof (crypt_yescrypt_internal_t))
